@@ -6,7 +6,11 @@ that breaks before its first byte, a change of settings.shares.download in betwe
 remove, optionally queue again) on the download that holds the path lock or on one that waits for it, and optionally a
 keep-directory naming chain (default,keep,number / keep,default,number) with per-uploader remote directories: alias
 only, ordinary, named like the file (cannot be created once an equally named file is in the download root) or 300
-characters long (cannot be created).  Oracle: no two active downloads share a local path at any sampled instant, no
+characters long (cannot be created); or download 0 is paused while DOWNLOADING, its partial file is deleted by the
+harness (the user cleaned up), and it is queued again in the instant an equally named download of another user is
+requested, both uploads being started in one instant or a generated offset apart, with an optional slow application
+state listener (if the deleted file's name is given to the other download BEFORE the resumed download has prepared
+its path again, the later clash is a consequence of the outside deletion and is labelled, not judged).  Oracle: no two active downloads share a local path at any sampled instant, no
 active download has the local path of a finished / failed / paused one, COMPLETE files equal their source, completed downloads
 have distinct paths, every path lies in the directory configured when it was chosen, nothing appears outside the
 download directories, pre-existing files keep their content, no download is left INITIALIZING / DOWNLOADING without a
@@ -42,6 +46,13 @@ ACT_KINDS = ['abort', 'pause', 'remove']
 # the share alias only (keep-directory ignores it -> download root), an ordinary directory, a directory NAMED LIKE THE
 # FILE (collides with an equally named file in the download root: the directory cannot be created), a 300-character
 # directory (cannot be created either)
+# resumed download whose partial file disappeared: download 0 is paused while DOWNLOADING (path chosen, file created),
+# the harness optionally deletes its partial file (the user cleaned up), after gap_ms it is queued again and download 1
+# (equally named, other user) is requested in the same instant; both uploaders then start their uploads in one instant
+# (iters odd: uploader 1 first) or other_offset_ms apart, so that the two downloads start up in lockstep
+# listener_ms: the application has registered a (documented) transfer state listener that takes that long, which
+# stretches the state change INITIALIZING -> DOWNLOADING of the resumed download
+RESUME_OFFSETS_MS = [0, 0, -0.1, 0.1, 0.5, 0.5, 1, 1, 3, -1, 5]
 CHAINS = {'dkn': ['default', 'keep', 'number'], 'kdn': ['keep', 'default', 'number']}
 RDIRS = ['alias-only', 'music', 'as-file', 'long']
 ACT_DELAYS_MS = [0, 0, 0.05, 0.3, 0.5, 1, 1.5, 3, 10, 19, 25]
@@ -72,6 +83,10 @@ def conc_case(draw):
         'rel0': draw(st.sampled_from([False, False, True])),
         'chain': draw(st.sampled_from([None, None, None, 'dkn', 'dkn', 'kdn'])),
         'rdirs': draw(st.none() | st.lists(st.sampled_from(RDIRS + ['alias-only', 'as-file']), min_size=n, max_size=n)),
+        'resume': draw(st.none() | st.none() | st.fixed_dictionaries({
+            'pause_after_ms': st.sampled_from([0, 1, 20]), 'delete': st.sampled_from([True, True, False]),
+            'gap_ms': st.sampled_from([5, 50, 200]), 'other_offset_ms': st.sampled_from(RESUME_OFFSETS_MS),
+            'iters': st.integers(0, 3), 'listener_ms': st.sampled_from([0, 0.5, 2, 2, 5])})),
         'act': draw(st.none() | st.fixed_dictionaries({
             'kind': st.sampled_from(ACT_KINDS), 'who': st.integers(0, 2), 'after_call': st.integers(0, 2),
             'delay_ms': st.sampled_from(ACT_DELAYS_MS), 'iters': st.integers(0, 3),
@@ -102,6 +117,18 @@ def enumerated():
                 yield {'t': 'conc', 'name': name, 'n': n, 'download_at': dl_at, 'start_at': [0] * n,
                        'sizes': [300] * n, 'exec_delay': 0.0, 'pre': 'none' if rel0 else 'file', 'limited': False,
                        'same_dir': True, 'switch_ms': sw, 'switch_rel': switch_rel, 'rel0': rel0}
+    # a paused download whose partial file was deleted is queued again in the instant an equally named download of
+    # another user is requested (the uploaders answer after equal delays, so both start up in the same instant)
+    for n in (2, 3):
+        for ed in (0.0, 0.002):
+            for delete in (True, False):
+                for off in (0, 0.5, 1, 3, -0.5):
+                    for listener in (0, 2, 5):
+                        yield {'t': 'conc', 'name': NAMES[0], 'n': n, 'download_at': [0, 0, 0][:n],
+                               'start_at': [0, 0, 0][:n], 'sizes': [20000, 9000, 9000][:n], 'exec_delay': ed,
+                               'pre': 'none', 'limited': True, 'same_dir': True,
+                               'resume': {'pause_after_ms': 1, 'delete': delete, 'gap_ms': 50, 'other_offset_ms': off,
+                                          'iters': n % 2, 'listener_ms': listener}}
     # keep-directory chains: an equally named download lives in the download root (still active under the bandwidth
     # limit, or finished, or a pre-existing file) when downloads arrive whose peer-named directory cannot be created
     # (named like that file / 300 characters long) or can (ordinary directory)
@@ -165,6 +192,13 @@ def run_conc_case(case, res: CaseResult):
     switch_rel = bool(case.get('switch_rel'))
     rel0 = bool(case.get('rel0'))
     act = case.get('act') if isinstance(case.get('act'), dict) else None
+    rs = case.get('resume') if isinstance(case.get('resume'), dict) and act is None and first_fault == 'none' else None
+    if rs is not None:
+        rs = {'pause_after': _num(rs.get('pause_after_ms', 0), 0, 100, 0) / 1000.0, 'delete': bool(rs.get('delete', True)),
+              'gap': _num(rs.get('gap_ms', 50), 1, 1000, 50) / 1000.0,
+              'off': _num(rs.get('other_offset_ms', 0), -20, 20, 0) / 1000.0,
+              'iters': int(_num(rs.get('iters', 0), 0, 5, 0)),
+              'listener': _num(rs.get('listener_ms', 0), 0, 20, 0) / 1000.0}
     if act is not None:
         act = {'kind': act.get('kind') if act.get('kind') in ACT_KINDS else 'abort',
                'who': int(_num(act.get('who', 0), 0, 2, 0)) % n,
@@ -282,6 +316,13 @@ def run_conc_case(case, res: CaseResult):
                 result = real_calculate(remote_path)
                 try:
                     chosen.append((configured, os.path.join(*result)))
+                    t0 = transfers[0]
+                    if rs is not None and out.get('deleted') and t0 is not None and \
+                            os.path.join(*result) == out['deleted'] and t0.local_path == out['deleted']:
+                        # the deleted file's name is given away: was the resumed download already past its
+                        # preparation (DOWNLOADING again)?  Then it owns the path and nobody else may get it
+                        out['given_away'] = 'resumed-owner-downloading' if (
+                            out.get('requeued_resume') and t0.state.VALUE.name == 'DOWNLOADING') else 'owner-not-started'
                 except Exception:
                     pass
                 try:    # observation only: which download is calculating (the caller's ``transfer`` argument)
@@ -312,10 +353,75 @@ def run_conc_case(case, res: CaseResult):
             transfers = [None] * n
             shared = []
 
+            go_second = asyncio.Event()
+
             async def start(i):
-                if dl_at[i]:
+                if rs is not None and i == 1:
+                    await go_second.wait()         # requested in the instant download 0 is queued again
+                elif dl_at[i]:
                     await asyncio.sleep(dl_at[i])
                 transfers[i] = await client.transfers.download('user%d' % i, ups[i].path)
+                if rs is not None and rs['listener']:
+                    transfers[i].state_listeners.append(slow_listener)
+
+            class SlowListener:                    # TransferStateListener protocol (aioslsk.transfer.state)
+                async def on_transfer_state_changed(self, transfer, old, new):
+                    if new.name == 'DOWNLOADING':
+                        await asyncio.sleep(rs['listener'])
+            slow_listener = SlowListener()
+
+            async def resume_driver():
+                out['resume_pending'] = True
+                try:
+                    while True:                    # until download 0 has its path, its file and is receiving
+                        t = transfers[0]
+                        if t is not None and t.state.VALUE.name == 'DOWNLOADING':
+                            break
+                        if t is not None and t.state.VALUE.name in ('COMPLETE', 'FAILED') or loop.time() > START + 5:
+                            return
+                        await asyncio.sleep(0.0005)
+                    if rs['pause_after']:
+                        await asyncio.sleep(rs['pause_after'])
+                    out['who'], out['acting'] = 0, True
+                    try:
+                        await client.transfers.pause(t)
+                        out['acted'] = out['paused_for_resume'] = True
+                    except Exception as exc:
+                        out['act_refused'] = type(exc).__name__
+                        return
+                    finally:
+                        out['acting'] = False
+                    if rs['delete'] and t.local_path and os.path.isfile(t.local_path):
+                        os.remove(t.local_path)    # the user cleans up the partial file of the paused download
+                        out['deleted'] = t.local_path
+                    await asyncio.sleep(rs['gap'])
+                    # both uploaders now wait for the harness: their uploads are started in one instant (or
+                    # |other_offset_ms| apart), otherwise connection set-up times decide who arrives first
+                    ups[0].auto_start = ups[1].auto_start = False
+                    seen0 = len(ups[0].queue_requests)
+                    go_second.set()
+                    out['requeued_resume'] = True
+                    await client.transfers.queue(t)
+                    for _ in range(4000):
+                        if len(ups[0].queue_requests) > seen0 and ups[1].queue_requests:
+                            break
+                        await asyncio.sleep(0.0005)
+                    else:
+                        return
+                    await asyncio.sleep(0.002)
+                    order = [0, 1] if rs['iters'] % 2 == 0 else [1, 0]
+                    for i in order:
+                        delay = max(0.0, rs['off'] if i == 1 else -rs['off'])
+                        if delay:
+                            loop.call_later(delay, ups[i].start_upload, ups[i].path)
+                        else:
+                            ups[i].start_upload(ups[i].path)
+                    out['uploads_started_together'] = True
+                finally:
+                    go_second.set()
+                    out['resume_pending'] = False
+            START = loop.time()
+            resume_task = asyncio.ensure_future(resume_driver()) if rs is not None and n >= 2 else None
             await asyncio.gather(*[start(i) for i in range(n)])
             deadline = loop.time() + 60
             while loop.time() < deadline:
@@ -352,6 +458,8 @@ def run_conc_case(case, res: CaseResult):
                             and (getattr(t, '_transfer_task', None) is None or t._transfer_task.done())]
             if out.get('act_task') is not None:
                 out['act_task'].cancel()
+            if resume_task is not None:
+                resume_task.cancel()
             out['shared'] = shared[:3]
             out['final'] = [(t.state.VALUE.name, t.local_path) for t in transfers]
             out['files'] = []
@@ -374,22 +482,34 @@ def run_conc_case(case, res: CaseResult):
         # root cause tag: the shared path is one that a paused download kept although its file was never created
         unreserved = out.get('unreserved') if (act is not None and act['kind'] == 'pause') else None
 
+        # the harness deleted the partial file of the paused download and its name was given to another download
+        # BEFORE the resumed download had prepared its path again: consequence of the outside deletion, not judged
+        excused = out.get('deleted') if out.get('given_away') == 'owner-not-started' else None
+        if excused:
+            res.label('conc:deleted-file-name-taken-before-owner-resumed')
+
         def kind_for(kind, paths):
+            if excused in paths:
+                return None
             if unreserved in paths:
                 return 'C09/unreserved-path-kept-after-pause:' + kind.split('/', 1)[1]
             return kind
+
+        def violate_unless_excused(kind, detail):
+            if kind is not None:
+                res.violate(kind, detail)
         if out.get('shared'):
-            res.violate(kind_for('C09/concurrent-downloads-share-local-path', out['shared'][0][1]),
+            violate_unless_excused(kind_for('C09/concurrent-downloads-share-local-path', out['shared'][0][1]),
                         f'{out["shared"][0]} final={final} action={act}')
         if out.get('shared_inactive') and not out.get('shared'):
-            res.violate(kind_for('C09/active-download-shares-local-path-of-inactive-download',
+            violate_unless_excused(kind_for('C09/active-download-shares-local-path-of-inactive-download',
                                  [out['shared_inactive'][1]]), f'{out["shared_inactive"]} final={final} action={act}')
         if out.get('stuck'):
             res.violate('C09/download-stuck-without-task', f'{out["stuck"]} final={final} action={act}')
         complete_paths = [p for s_, p in final if s_ == 'COMPLETE']
         if len(set(complete_paths)) < len(complete_paths) and not out.get('shared'):
             dup = [p for p in complete_paths if complete_paths.count(p) > 1]
-            res.violate(kind_for('C09/completed-downloads-share-local-path', dup), f'{final} action={act}')
+            violate_unless_excused(kind_for('C09/completed-downloads-share-local-path', dup), f'{final} action={act}')
         configured_for = {}
         for configured, p in chosen:
             configured_for[p] = configured         # the last calculation that produced p
@@ -414,7 +534,7 @@ def run_conc_case(case, res: CaseResult):
             if p and p not in configured_for and not (dir_ok(p, dl) or (switch_s is not None and dir_ok(p, dl2))):
                 res.violate('C09/local-path-not-directly-in-download-directory', str(p))
             if s_ == 'COMPLETE' and out['files'][i] is False and not out.get('shared'):
-                res.violate(kind_for('C09/complete-file-differs-from-source:concurrent', [p]),
+                violate_unless_excused(kind_for('C09/complete-file-differs-from-source:concurrent', [p]),
                             f'{final} action={act}')
             if p and pre != 'none' and os.path.basename(p) == name and \
                     os.path.realpath(os.path.dirname(p)) == os.path.realpath(dl):
@@ -430,6 +550,13 @@ def run_conc_case(case, res: CaseResult):
         res.nontrivial = True
         res.key = ['conc', name, n, dl_at, st_at, sizes, exec_delay, pre, limited, same_dir, first_fault, retry_s,
                    switch_s, switch_rel, rel0, act, chain, rdirs]
+        if rs is not None:
+            res.label('conc:resume-scenario')
+            for key in ('paused_for_resume', 'deleted', 'requeued_resume', 'uploads_started_together', 'act_refused'):
+                if out.get(key):
+                    res.label('conc:resume:' + key)
+            if out.get('given_away'):
+                res.label('conc:resume:name-given-away:' + out['given_away'])
         if chain is not None:
             res.label('conc:chain:' + chain)
         for r in sorted(set(rdirs or [])):
